@@ -104,6 +104,16 @@ func stressC12(d time.Duration, seed uint64) result {
 			}
 			stable := mkService("/stable", 3, true)
 			dyn := mkService("/dyn", 2, true)
+			// a route whose If-condition (user code, evaluated while the read lock is held) panics on demand;
+			// with recovery on the panic becomes a 500 and must leave no lock behind
+			c.DoNotRecover(false)
+			c.RecoverHandler(func(interface{}, http.ResponseWriter) {})
+			stable.Route(stable.GET("/cond").If(func(r *http.Request) bool {
+				if r.Header.Get("X-Panic") != "" {
+					panic("condition panics")
+				}
+				return true
+			}).To(func(req *restful.Request, resp *restful.Response) { resp.Write([]byte("c")) }))
 			c.Add(stable)
 			c.Add(dyn)
 			stop := make(chan struct{})
@@ -166,6 +176,14 @@ func stressC12(d time.Duration, seed uint64) result {
 							path = fmt.Sprintf("/tmp%d/r0/%s", k%2, id)
 						}
 						req := httptest.NewRequest("GET", path, nil)
+						if r.Chance(1, 50) {
+							req = httptest.NewRequest("GET", "/stable/cond", nil)
+							req.Header.Set("X-Panic", "1")
+							want = ""
+							count("panicking-condition")
+							c.Dispatch(httptest.NewRecorder(), req)
+							continue
+						}
 						func() {
 							defer func() {
 								if p := recover(); p != nil {
@@ -349,6 +367,13 @@ func stressC13(d time.Duration, seed uint64) result {
 						enc := []string{"gzip", "deflate"}[r.Intn(2)]
 						req.Header.Set("Accept-Encoding", enc)
 						rec := httptest.NewRecorder()
+						if r.Chance(1, 8) {
+							// a client that went away: the underlying writer fails; the framework closes the
+							// compressing writer twice on this path (dispatch and ServeHTTP) — still one release
+							c.ServeHTTP(&failingWriter{rec: rec, after: r.Intn(40)}, req)
+							count("request-with-failing-writer:" + prov)
+							continue
+						}
 						c.ServeHTTP(rec, req)
 						count("request:" + prov)
 						var rd io.Reader
@@ -398,4 +423,24 @@ func stressC13(d time.Duration, seed uint64) result {
 	return result{OK: true}
 }
 
-var _ = http.StatusOK
+// failingWriter accepts `after` bytes and then fails every Write, like a broken connection.
+type failingWriter struct {
+	rec   *httptest.ResponseRecorder
+	after int
+}
+
+func (f *failingWriter) Header() http.Header { return f.rec.Header() }
+func (f *failingWriter) WriteHeader(c int)   { f.rec.WriteHeader(c) }
+func (f *failingWriter) Write(b []byte) (int, error) {
+	if f.after <= 0 {
+		return 0, fmt.Errorf("broken pipe")
+	}
+	if len(b) > f.after {
+		n := f.after
+		f.after = 0
+		f.rec.Write(b[:n])
+		return n, fmt.Errorf("broken pipe")
+	}
+	f.after -= len(b)
+	return f.rec.Write(b)
+}
